@@ -84,7 +84,7 @@ def model_value(model, v, depth=0):
 
 def verify_function(job):
     """runs in a worker process; returns a JSON-able dict"""
-    modname, key, budget, outdir = job
+    modname, key, budget, outdir, prop = job
     t0 = time.time()
     res = {"key": key, "module": modname, "obligations": [], "error": None, "unsupported": None}
     try:
@@ -95,7 +95,7 @@ def verify_function(job):
             reg.update(importlib.import_module("contracts." + m).C)
         c = reg[key]
         qual = c.get("function", key.split("#")[0])
-        ctx = core.Ctx(qual, c, reg, budget=budget, label=key)
+        ctx = core.Ctx(qual, c, reg, budget=budget, label=key, prop=prop)
         try:
             ctx.run()
         except core.Unsupported as e:
@@ -106,7 +106,7 @@ def verify_function(job):
                    sha256=hashlib.sha256(src.encode()).hexdigest(), mode=c.get("mode", "U"),
                    trusted=sorted(ctx.trusted), inlined=sorted(ctx.inlined), pruned=ctx.pruned,
                    callees=sorted(getattr(ctx, "callees", [])), requires_sat=getattr(ctx, "requires_sat", "?"),
-                   solver_s=round(ctx.solver_time, 3), returns_seen=ctx.returns_seen,
+                   solver_s=round(ctx.solver_time, 3), returns_seen=ctx.returns_seen, owner=c.get("owner"),
                    assumed=list(c.get("ensures_assumed", [])) + list(c.get("axioms", [])))
         os.makedirs(outdir, exist_ok=True)
         seen = {}
@@ -114,7 +114,7 @@ def verify_function(job):
             k = seen.get(o.name, 0)
             seen[o.name] = k + 1
             d = {"name": o.name, "occ": k, "kind": o.kind, "status": o.status, "time_s": round(o.time, 3),
-                 "line": o.lineno, "reason": o.reason}
+                 "line": o.lineno, "reason": o.reason, "tag": o.tag}
             if o.status != "discharged":
                 fn = os.path.join(outdir, re.sub(r"[^A-Za-z0-9_.-]+", "_", "%s__%s__%d" % (key, o.name[:80], k)) + ".smt2")
                 try:
@@ -236,7 +236,7 @@ def main():
         return do_replay(prop, a.replay)
 
     budget = 20.0 if tier == "quick" else 90.0
-    jobs = [(m, k, budget, os.path.join(outdir, "vc")) for (m, k) in cfg.DEDUCTIVE if not a.only or a.only in k]
+    jobs = [(m, k, budget, os.path.join(outdir, "vc"), prop) for (m, k) in cfg.DEDUCTIVE if not a.only or a.only in k]
     results = []
     if jobs:
         with mp.Pool(min(14, len(jobs))) as pool:
@@ -299,6 +299,10 @@ def main():
                 undecided.append({"function": r["key"], "obligation": o["name"], "reason": o["reason"], "smt2": o.get("smt2")})
                 continue
             # failed: counter-model exists
+            if o.get("tag") is None and r.get("owner") and r["owner"] != prop:
+                undecided.append({"function": r["key"], "obligation": o["name"],
+                                  "reason": "a base obligation owned by %s failed (see ./check %s); %s's own clauses rest on it" % (r["owner"], r["owner"], prop)})
+                continue
             kf = None
             for k in known:
                 if k.get("function") == r["function"].split(".")[-1] or k.get("function") == r["function"]:
